@@ -20,7 +20,7 @@ theorem C06_inv_init : WakeInv P2.init := by constructor <;> simp [P2.init]
 /-- The invariant is preserved by every step when a woken consumer's send cannot be stuck on a
     full mailbox (`bounded = false`): all publishes / nacks / expiries, all pull turns, every
     cancellation point of a consumer. -/
-theorem C06_inv_step {s s' : State} (h : WakeInv s) (l : Label) (hs : step false s l = some s') : WakeInv s' := by
+theorem C06_inv_step {s s' : State} (h : WakeInv s) (l : Label) (hs : step false false s l = some s') : WakeInv s' := by
   obtain ⟨w1, n1, nb⟩ := h
   cases l <;> simp only [step, notifyOne] at hs <;> (repeat' split at hs) <;>
     first
@@ -28,7 +28,7 @@ theorem C06_inv_step {s s' : State} (h : WakeInv s) (l : Label) (hs : step false
       | (simp only [Option.some.injEq] at hs; subst hs
          constructor <;> simp_all <;> omega)
 
-theorem C06_inv_run : ∀ (ls : List Label) (s s' : State), WakeInv s → run false s ls = some s' → WakeInv s' := by
+theorem C06_inv_run : ∀ (ls : List Label) (s s' : State), WakeInv s → run false false s ls = some s' → WakeInv s' := by
   intro ls
   induction ls with
   | nil => intro s s' h hr; simp [run] at hr; subst hr; exact h
@@ -42,10 +42,10 @@ theorem C06_inv_run : ∀ (ls : List Label) (s s' : State), WakeInv s → run fa
 /-- No lost wake-up / hand-off: in every reachable quiescent state — no pull request queued,
     nobody notified-but-not-run, nobody between result and wait — a queued message implies that
     NO consumer is parked. Equivalently: while any consumer waits, no message stays queued. -/
-theorem C06_no_lost_wakeup (ls : List Label) (s : State) (hr : run false P2.init ls = some s)
+theorem C06_no_lost_wakeup (ls : List Label) (s : State) (hr : run false false P2.init ls = some s)
     (hq : Quiescent s) (hd : s.deleted = false) (hb : s.backlog > 0) : s.parked = 0 := by
   have h := C06_inv_run ls _ _ C06_inv_init hr
-  obtain ⟨hq1, _, _, hq4, _⟩ := hq
+  obtain ⟨hq1, _, _, hq4, _, _⟩ := hq
   have := h.w1 hd hb
   rcases this with hp | hp
   · exact h.n1 hp
@@ -55,8 +55,8 @@ theorem C06_no_lost_wakeup (ls : List Label) (s : State) (hr : run false P2.init
     dropped before running forwards the notification. -/
 theorem C06_notify_model_ok (s : State) :
     (s.permit = true → s.g0 > 0 → s.deleted = false →
-      ∃ s', step false s .poll = some s' ∧ s'.permit = false ∧ s'.q = s.q + 1) ∧
-    (s.notif > 0 → ∃ s', step false s .cancelNotified = some s' ∧
+      ∃ s', step false false s .poll = some s' ∧ s'.permit = false ∧ s'.q = s.q + 1) ∧
+    (s.notif > 0 → ∃ s', step false false s .cancelNotified = some s' ∧
       ((s.parked > 0 ∧ s'.notif = s.notif ∧ s'.parked = s.parked - 1) ∨ (s.parked = 0 ∧ s'.permit = true))) := by
   constructor
   · intro hp hg hd
@@ -69,24 +69,63 @@ theorem C06_notify_model_ok (s : State) :
     · simp [hpk]; omega
     · simp [hpk]; omega
 
-/-! ### The bounded-mailbox corner (present in the code): a woken consumer that is abandoned while
+/-! ### The bounded-mailbox corner (the code before fix commit 094936c): a woken consumer that is abandoned while
     its next pull request is blocked on a FULL subscription mailbox has consumed the notification
     and forwards nothing. Witness: two consumers park, one message is posted, the woken consumer
     blocks and is cancelled — quiescent, one message queued, one consumer parked for ever. -/
 def swallowed : State :=
-  { backlog := 1, permit := false, q := 0, g0 := 0, gp := 0, parked := 1, notif := 0, blk := 0,
+  { backlog := 1, permit := false, q := 0, g0 := 0, gp := 0, parked := 1, notif := 0, blk := 0, other := 0,
     deleted := false, ended := 0, silent := 0 }
 
 theorem C06_pinned_swallowed :
-    run true P2.init [.arrive, .arrive, .pullTurn 1, .pullTurn 1, .poll, .poll, .post 1, .block, .cancelBlocked] = some swallowed ∧
+    run true false P2.init [.arrive, .arrive, .pullTurn 1, .pullTurn 1, .poll, .poll, .otherArrive, .post 1, .block, .cancelBlocked, .otherTurn] = some swallowed ∧
       Quiescent swallowed ∧ swallowed.backlog = 1 ∧ swallowed.parked = 1 := by
   refine ⟨by decide, ?_, rfl, rfl⟩
   unfold Quiescent; decide
 
+/-! ### The repaired actor loop (fix commit 094936c): re-notify after every handled request while the backlog
+    is non-empty. The token invariant then also counts the queued non-pull requests, and survives the
+    abandonment of a consumer blocked on a full mailbox. -/
+
+structure WakeInvR (s : State) : Prop where
+  w1 : s.deleted = false → s.backlog > 0 → s.permit = true ∨ s.q + s.notif + s.other > 0
+  n1 : s.permit = true → s.parked = 0
+
+theorem C06_invR_init : WakeInvR P2.init := by constructor <;> simp [P2.init]
+
+theorem C06_invR_step {s s' : State} (h : WakeInvR s) (l : Label) (hs : step true true s l = some s') : WakeInvR s' := by
+  obtain ⟨w1, n1⟩ := h
+  cases l <;> simp only [step, notifyOne] at hs <;> (repeat' split at hs) <;>
+    first
+      | (simp at hs; done)
+      | (simp only [Option.some.injEq] at hs; subst hs
+         constructor <;> simp_all <;> omega)
+
+theorem C06_invR_run : ∀ (ls : List Label) (s s' : State), WakeInvR s → run true true s ls = some s' → WakeInvR s' := by
+  intro ls
+  induction ls with
+  | nil => intro s s' h hr; simp [run] at hr; subst hr; exact h
+  | cons l ls ih =>
+    intro s s' h hr
+    simp only [run] at hr
+    split at hr
+    · rename_i s1 hs; exact ih s1 s' (C06_invR_step h l hs) hr
+    · simp at hr
+
+/-- No lost wake-up with bounded mailboxes and cancellation at EVERY await, including a woken
+    consumer abandoned while its pull request waits for room in a full mailbox. -/
+theorem C06_no_lost_wakeup_bounded (ls : List Label) (s : State) (hr : run true true P2.init ls = some s)
+    (hq : Quiescent s) (hd : s.deleted = false) (hb : s.backlog > 0) : s.parked = 0 := by
+  have h := C06_invR_run ls _ _ C06_invR_init hr
+  obtain ⟨hq1, _, _, hq4, _, hq6⟩ := hq
+  rcases h.w1 hd hb with hp | hp
+  · exact h.n1 hp
+  · omega
+
 /-! ### Non-vacuity -/
-example : run false P2.init [.arrive, .arrive, .pullTurn 1, .pullTurn 1, .poll, .poll, .post 3, .wake, .pullTurn 1, .wake, .ret false,
+example : run false false P2.init [.arrive, .arrive, .pullTurn 1, .pullTurn 1, .poll, .poll, .post 3, .wake, .pullTurn 1, .wake, .ret false,
       .pullTurn 1, .ret false] =
-    some { backlog := 1, permit := true, q := 0, g0 := 0, gp := 0, parked := 0, notif := 0, blk := 0, deleted := false, ended := 0, silent := 0 } := by
+    some { backlog := 1, permit := true, q := 0, g0 := 0, gp := 0, parked := 0, notif := 0, blk := 0, other := 0, deleted := false, ended := 0, silent := 0 } := by
   decide
 
 end Deltio
